@@ -206,6 +206,32 @@ def write (st : State) : Except WErr Out :=
     | .error x => .error x
     | .ok bs => .ok { rules := st.rules.flatMap (ruleBlocks st.elems), builds := bs }
 
+/-! ### the build line as text (`NinjaBuildElement.write`) -/
+
+/-- `' '.join(ninja_quote(i, True) for i in names)` (for names the quoting accepts) -/
+def joinQ : List Str → Str
+  | [] => []
+  | [p] => quoteChars p
+  | p :: r => quoteChars p ++ ' ' :: joinQ r
+
+def sepPipe : Str := [' ', '|', ' ']
+def sepPipe2 : Str := [' ', '|', '|', ' ']
+
+/-- `sep` + the quoted names, or nothing for an empty list (`' | ' + …`, `' || ' + …`) -/
+def group (sep : Str) (ps : List Str) : Str := if ps = [] then [] else sep ++ joinQ ps
+
+/-- what follows the keyword `build ` on the line of `b` (`{outs}{implicit_outs}: {rulename} {ins}` + ` | deps`
++ ` || orderdeps` + newline), followed by `rest` -/
+def printEdgeThen (b : OutBuild) (rest : Str) : Str :=
+  joinQ b.outs ++ (group sepPipe b.implOuts ++ ':' :: ' ' :: (b.rule ++ ' ' ::
+    (joinQ b.ins ++ (group sepPipe b.deps ++ (group sepPipe2 b.orderdeps ++ '\n' :: rest)))))
+
+/-- the build statements as `NinjaBuild.write` lays them out when the elements carry no variables:
+every line is followed by an empty line -/
+def printBuilds : List OutBuild → Str
+  | [] => []
+  | b :: r => "build".toList ++ ' ' :: printEdgeThen b ('\n' :: printBuilds r)
+
 def emit (ops : List Op) : Except WErr Out := write (run ops {})
 
 end MesonModel.Ninja.Emit
